@@ -3,16 +3,16 @@
 //! the public `JumpTable::is_valid` (the observer the property names, and the function whose result the
 //! Verus unit `jump` calls `jt_valid`).
 //!
-//! BOUNDED, never counted as proved: legacy code of CONCRETE length L in 0..=5 (one harness per L), all
-//! 256^L byte contents symbolic.  Every PUSH width 1..=32 occurs as a symbolic opcode in every position, so
-//! every width occurs truncated by the end of the code (PUSH32 as the last byte runs 32 bytes into the
-//! 33-byte padding).  A second family fixes the opcode under test and keeps the rest symbolic.
+//! BOUNDED, never counted as proved.  Family 1: ALL byte strings of a concrete length -- affordable for L = 0
+//! only (see below).  Family 2: code SHAPES with concrete opcode positions and ALL immediate-data bytes
+//! symbolic (JUMPDEST / PUSHn bytes hidden in push data; PUSH1, PUSH2, PUSH31, PUSH32 truncated by the end of
+//! the code -- PUSH32 as the last byte runs 32 bytes into the 33-byte padding).
 //!
 //! Checked for the value `to_analysed(Bytecode::new_legacy(code))`:
 //!   * it is `LegacyAnalyzed`; `original_len == L`; `bytecode.len() == L + 33`; `bytecode[..L] == code`;
 //!     the 33 padding bytes are zero;
 //!   * the jump table has `L + 33` bits;
-//!   * `table_ok`: for EVERY t in 0..L+34 and for t = L+33 (first position past the table), usize::MAX and
+//!   * `table_ok`: for EVERY t in 0..=L+33 (L+33 = first position past the table), for usize::MAX and for
 //!     one symbolic t >= L+33:   jump_table.is_valid(t)  <=>  valid_dest(code, t)
 //!     -- in particular no position in the padding and no position inside push data is ever marked;
 //!   * no panic / out-of-bounds access / pointer arithmetic overflow in analyze (CBMC's pointer checks).
@@ -75,18 +75,15 @@ fn check<const L: usize>(code: [u8; L], witness: usize) {
 }
 
 // ---- family 1: ALL byte strings of a concrete length (symbolic opcodes => symbolic walk) ------------------------
-// Only L = 0 is affordable in the quick tier, L = 1 in the thorough tier; L = 2 exhausted 12 GB after 5.6 min
-// (measured 2026-09-21): every loop iteration of analyze then executes bitvec's `set_unchecked` symbolically,
-// and bitvec decodes its span pointer through pointer<->integer casts, which CBMC resolves over every object.
+// Only L = 0 is affordable.  Measured 2026-09-21 (shared machine, load average 25-60): L = 0: 142 s / 1.7 GB;
+// L = 1 with NO table observation at all (to_analysed + original_len only): 830 s / 4.5 GB; L = 2: CBMC exhausted
+// the 12 GB cap after 5.6 min.  Cause: with a symbolic opcode every later loop iteration of `analyze` executes
+// bitvec's `set_unchecked` under a symbolic guard with a symbolic index, and bitvec decodes its span pointer
+// through pointer<->integer casts, which CBMC resolves over every object of the program.  Hence family 2.
 #[kani::proof]
 #[kani::unwind(36)]
 fn table_len0() {
     check::<0>(kani::any(), usize::MAX);
-}
-#[kani::proof]
-#[kani::unwind(37)]
-fn table_len1() {
-    check::<1>(kani::any(), 0);
 }
 
 // ---- family 2: concrete OPCODE positions, ALL immediate-data bytes symbolic ------------------------------------
